@@ -25,7 +25,7 @@ def h_diag_pauli(env, N, i0, causal, form='pauli'):
     tail = g[2 * i0:] if causal else g
     env.assume(b_not(arr_eq(tail, [0] * len(tail))), 'operator (its part on qubits >= i0 in causal mode) is not the identity')
     P = M.pa.Pauli(g.copy(), p) if form == 'pauli' else M.pa.PauliMonomial(g.copy(), p).set_c(-2.5)
-    i0_arg = i0 if form != 'npint' else np.int64(i0)
+    i0_arg = {'npint': np.int64(i0), 'negative': i0 - N}.get(form, i0)      # negative: the same qubit counted from the end
     res = env.run(lambda: M.ci.diagonalize(P, i0_arg, causal=causal))
     env.goal('no_exception', b_not(res.raised))
     if res.value is None:
@@ -45,7 +45,7 @@ def h_diag_pauli(env, N, i0, causal, form='pauli'):
         want[1] = 1
         env.goal('tail_is_Z_on_i0', arr_eq(out[2 * i0:], want))
         gates = [gt for l in circ.layers_forward() for gt in l.gates]
-        env.goal('gates_act_on_i0_and_later_only', all(min(gt.qubits) >= i0 for gt in gates))
+        env.goal('gates_act_on_i0_and_later_only', all(min(int(q) % N for q in gt.qubits) >= i0 for gt in gates))
     else:
         want = [0] * (2 * N)
         want[2 * i0 + 1] = 1
@@ -157,6 +157,9 @@ def jobs(tier):
                 J.append(dict(harness=('c18', 'h_diag_pauli'), params=dict(N=N, i0=i0, causal=causal), timeout_s=300, cost=N))
                 if N == 2:
                     J.append(dict(harness=('c18', 'h_diag_pauli'), params=dict(N=N, i0=i0, causal=causal, form='monomial'), timeout_s=300, cost=N))
+                if N in (2, 3):
+                    for form in ('npint', 'negative'):
+                        J.append(dict(harness=('c18', 'h_diag_pauli'), params=dict(N=N, i0=i0, causal=causal, form=form), timeout_s=300, cost=N))
     for N in (1, 2):
         J.append(dict(harness=('c18', 'h_diag_state'), params=dict(N=N), timeout_s=600, cost=30))
     for N in (1, 2):
